@@ -133,6 +133,36 @@ def run_ranges(chk, exe, rng, broken):
             expect.append(('correlated-late-' + name, acc, desc))
         lines.append('cal free 0')
         expect.append(None)
+    # 7. the calibration frequencies set again after standards were added: the new band is checked against every parameter in use, as
+    #    the first one was (a second, third call is as much a call as the first)
+    for rep in range(10 if chk.tier == 'quick' else 150):
+        lo = rng.uniform(1e8, 2e9)
+        hi = lo * rng.uniform(2, 6)
+        nf = rng.randint(2, 4)
+        k = rng.randint(2, 4)
+        pf = [lo + (hi - lo) * i / (k - 1) for i in range(k)]
+
+        def band(a, b):
+            return [a + (b - a) * i / (nf - 1) for i in range(nf)]
+        first = band(lo * rng.uniform(1.0, 1.2), hi * rng.uniform(0.8, 1.0))
+        L = ['cal create 0', 'cal new_alloc 0 0 0 1 1 %d' % nf, 'cal new_set_frequency_vector 0 %s' % fv(first)]
+        corr = rng.random() < 0.3
+        if corr:
+            L.append('cal make_correlated 0 %d %d F %s %s' % (rng.choice([0, 1, 2]), k, fv(pf), fv([1e-3] * k)))
+        else:
+            L.append('cal make_vector 0 %d %s %s' % (k, fv(pf), ' '.join(vlib.c2h(calsim.rc(rng, 0.3)) for _ in range(k))))
+        M1 = 'm %d 1 1 %s' % (nf, ' '.join(vlib.c2h(calsim.rc(rng, 0.5)) for _ in range(nf)))
+        L.append('cal add 0 single_reflect %s 3 1' % M1)
+        lines += L
+        expect += [None] * 2 + [('again-setup', True, 'set-up step of the repeated-frequencies scenario')] * (len(L) - 2)
+        for step in range(rng.randint(1, 3)):
+            name, a, b, acc = rng.choice([('inside', lo * 1.1, hi * 0.9, True), ('equal', lo, hi, True), ('low-out', lo * 0.8, hi, False),
+                                          ('high-out', lo, hi * 1.3, False), ('both-out', lo * 0.9, hi * 1.1, False), ('far', hi * 2, hi * 4, False)])
+            lines.append('cal new_set_frequency_vector 0 %s' % fv(band(a, b)))
+            expect.append(('again-' + name, acc, '%s standard known over %.3e..%.3e, calibration frequencies set again (call %d) to %.3e..%.3e' % (
+                'correlated' if corr else 'vector', lo, hi, step + 2, a, b)))
+        lines.append('cal free 0')
+        expect.append(None)
     out, rc, err = vlib.run_lines(exe, lines)
     if rc != 0 or len(out) != len(lines):
         chk.violation('sanitizer-range', 'library crashed in the range-check scenarios: ' + err[-1200:], lines[max(0, len(out) - 8):len(out) + 1])
